@@ -28,10 +28,11 @@ def le : Nat → Nat → Bytes
 /-- two's complement of a signed integer on `w` bytes. -/
 def twos (w : Nat) (i : Int) : Nat := if 0 ≤ i then i.toNat else 256 ^ w - (-i).toNat
 
-/-- value of big-endian bytes. -/
+/-- value of big-endian bytes.  (`256 ^ k * b`, not `b * 256 ^ k`: the kernel unfolds `Nat.mul` on its
+second argument, and a literal there means millions of steps when the first one is symbolic.) -/
 def ofBe : Bytes → Nat
   | [] => 0
-  | b :: bs => b.toNat * 256 ^ bs.length + ofBe bs
+  | b :: bs => 256 ^ bs.length * b.toNat + ofBe bs
 
 def ofLe : Bytes → Nat
   | [] => 0
@@ -206,12 +207,50 @@ def count (bs : Bytes) : Out (Nat × Bytes) :=
   | .ok (n, r) => if n < 0 then .err .invalid else .ok (n.toNat, r)
   | .err k => .err k | .panic m => .panic m | .fuel => .fuel
 
+/-- a bool: any non-zero byte is true. -/
+def boolVal (bs : Bytes) : Out (Bool × Bytes) :=
+  match bs with
+  | [] => .err .eof
+  | x :: r => .ok (x != 0, r)
+
+/-- binary / string payload: i32 length, then that many bytes. -/
+def payload (bs : Bytes) : Out (Bytes × Bytes) :=
+  match count bs with
+  | .ok (n, r) => take n r
+  | .err k => .err k | .panic m => .panic m | .fuel => .fuel
+
+/-- list / set header: element type byte, i32 count. -/
+def listHdr (bs : Bytes) : Out ((TType × Nat) × Bytes) :=
+  match typeByte bs with
+  | .ok (et, r) => (match count r with
+    | .ok (n, r) => .ok ((et, n), r)
+    | .err k => .err k | .panic m => .panic m | .fuel => .fuel)
+  | .err k => .err k | .panic m => .panic m | .fuel => .fuel
+
+def mapHdr (bs : Bytes) : Out ((TType × TType × Nat) × Bytes) :=
+  match typeByte bs with
+  | .ok (kt, r) => (match listHdr r with
+    | .ok ((vt, n), r) => .ok ((kt, vt, n), r)
+    | .err k => .err k | .panic m => .panic m | .fuel => .fuel)
+  | .err k => .err k | .panic m => .panic m | .fuel => .fuel
+
+/-- field header: `none` for STOP, else type and id. -/
+def fieldHdr (bs : Bytes) : Out (Option (TType × Int) × Bytes) :=
+  match bs with
+  | [] => .err .eof
+  | b :: r =>
+    if b = 0 then .ok (none, r)
+    else match binTypeOfCode b.toNat with
+      | none => .err .invalid
+      | some t => match int 2 r with
+        | .ok (id, r) => .ok (some (t, id), r)
+        | .err k => .err k | .panic m => .panic m | .fuel => .fuel
+
 mutual
 def decode : Nat → TType → Bytes → Out (TVal × Bytes)
   | 0, _, _ => .fuel
-  | _+1, .bool, bs => match bs with
-    | [] => .err .eof
-    | x :: r => .ok (.bool (x != 0), r)
+  | _+1, .bool, bs => match boolVal bs with
+    | .ok (b, r) => .ok (.bool b, r) | .err k => .err k | .panic m => .panic m | .fuel => .fuel
   | _+1, .i8, bs => match int 1 bs with
     | .ok (n, r) => .ok (.i8 n, r) | .err k => .err k | .panic m => .panic m | .fuel => .fuel
   | _+1, .i16, bs => match int 2 bs with
@@ -222,64 +261,50 @@ def decode : Nat → TType → Bytes → Out (TVal × Bytes)
     | .ok (n, r) => .ok (.i64 n, r) | .err k => .err k | .panic m => .panic m | .fuel => .fuel
   | _+1, .double, bs => match take 8 bs with
     | .ok (a, r) => .ok (.dbl (ofBe a), r) | .err k => .err k | .panic m => .panic m | .fuel => .fuel
-  | _+1, .binary, bs => match count bs with
-    | .ok (n, r) => (match take n r with
-      | .ok (a, r) => .ok (.bin a, r) | .err k => .err k | .panic m => .panic m | .fuel => .fuel)
-    | .err k => .err k | .panic m => .panic m | .fuel => .fuel
+  | _+1, .binary, bs => match payload bs with
+    | .ok (a, r) => .ok (.bin a, r) | .err k => .err k | .panic m => .panic m | .fuel => .fuel
   | _+1, .uuid, bs => match take 16 bs with
     | .ok (a, r) => .ok (.uuid a, r) | .err k => .err k | .panic m => .panic m | .fuel => .fuel
   | f+1, .struct, bs => match decodeFields f bs with
     | .ok (fs, r) => .ok (.struct fs, r) | .err k => .err k | .panic m => .panic m | .fuel => .fuel
-  | f+1, .list, bs => match typeByte bs with
-    | .ok (et, r) => (match count r with
-      | .ok (n, r) => (match decodeVals f et n r with
-        | .ok (xs, r) => .ok (.list et xs, r) | .err k => .err k | .panic m => .panic m | .fuel => .fuel)
-      | .err k => .err k | .panic m => .panic m | .fuel => .fuel)
+  | f+1, .list, bs => match listHdr bs with
+    | .ok ((et, n), r) => match decodeVals f et n r with
+      | .ok (xs, r) => .ok (.list et xs, r) | .err k => .err k | .panic m => .panic m | .fuel => .fuel
     | .err k => .err k | .panic m => .panic m | .fuel => .fuel
-  | f+1, .set, bs => match typeByte bs with
-    | .ok (et, r) => (match count r with
-      | .ok (n, r) => (match decodeVals f et n r with
-        | .ok (xs, r) => .ok (.set et xs, r) | .err k => .err k | .panic m => .panic m | .fuel => .fuel)
-      | .err k => .err k | .panic m => .panic m | .fuel => .fuel)
+  | f+1, .set, bs => match listHdr bs with
+    | .ok ((et, n), r) => match decodeVals f et n r with
+      | .ok (xs, r) => .ok (.set et xs, r) | .err k => .err k | .panic m => .panic m | .fuel => .fuel
     | .err k => .err k | .panic m => .panic m | .fuel => .fuel
-  | f+1, .map, bs => match typeByte bs with
-    | .ok (kt, r) => (match typeByte r with
-      | .ok (vt, r) => (match count r with
-        | .ok (n, r) => (match decodePairs f kt vt n r with
-          | .ok (kvs, r) => .ok (.map kt vt kvs, r) | .err k => .err k | .panic m => .panic m | .fuel => .fuel)
-        | .err k => .err k | .panic m => .panic m | .fuel => .fuel)
-      | .err k => .err k | .panic m => .panic m | .fuel => .fuel)
+  | f+1, .map, bs => match mapHdr bs with
+    | .ok ((kt, vt, n), r) => match decodePairs f kt vt n r with
+      | .ok (kvs, r) => .ok (.map kt vt kvs, r) | .err k => .err k | .panic m => .panic m | .fuel => .fuel
     | .err k => .err k | .panic m => .panic m | .fuel => .fuel
   | _+1, .stop, _ => .err .invalid
   | _+1, .void, _ => .err .invalid
 def decodeFields : Nat → Bytes → Out (TFields × Bytes)
   | 0, _ => .fuel
-  | _+1, [] => .err .eof
-  | f+1, b :: r =>
-    if b = 0 then .ok (.nil, r)
-    else match binTypeOfCode b.toNat with
-      | none => .err .invalid
-      | some t => match int 2 r with
-        | .ok (id, r) => (match decode f t r with
-          | .ok (v, r) => (match decodeFields f r with
-            | .ok (rest, r) => .ok (.cons id v rest, r) | .err k => .err k | .panic m => .panic m | .fuel => .fuel)
-          | .err k => .err k | .panic m => .panic m | .fuel => .fuel)
-        | .err k => .err k | .panic m => .panic m | .fuel => .fuel
+  | f+1, bs => match fieldHdr bs with
+    | .ok (none, r) => .ok (.nil, r)
+    | .ok (some (t, id), r) => match decode f t r with
+      | .ok (v, r) => match decodeFields f r with
+        | .ok (rest, r) => .ok (.cons id v rest, r) | .err k => .err k | .panic m => .panic m | .fuel => .fuel
+      | .err k => .err k | .panic m => .panic m | .fuel => .fuel
+    | .err k => .err k | .panic m => .panic m | .fuel => .fuel
 def decodeVals : Nat → TType → Nat → Bytes → Out (TVals × Bytes)
   | 0, _, _, _ => .fuel
   | _+1, _, 0, bs => .ok (.nil, bs)
   | f+1, et, n+1, bs => match decode f et bs with
-    | .ok (v, r) => (match decodeVals f et n r with
-      | .ok (vs, r) => .ok (.cons v vs, r) | .err k => .err k | .panic m => .panic m | .fuel => .fuel)
+    | .ok (v, r) => match decodeVals f et n r with
+      | .ok (vs, r) => .ok (.cons v vs, r) | .err k => .err k | .panic m => .panic m | .fuel => .fuel
     | .err k => .err k | .panic m => .panic m | .fuel => .fuel
 def decodePairs : Nat → TType → TType → Nat → Bytes → Out (TPairs × Bytes)
   | 0, _, _, _, _ => .fuel
   | _+1, _, _, 0, bs => .ok (.nil, bs)
   | f+1, kt, vt, n+1, bs => match decode f kt bs with
-    | .ok (k, r) => (match decode f vt r with
-      | .ok (v, r) => (match decodePairs f kt vt n r with
-        | .ok (rest, r) => .ok (.cons k v rest, r) | .err k => .err k | .panic m => .panic m | .fuel => .fuel)
-      | .err k => .err k | .panic m => .panic m | .fuel => .fuel)
+    | .ok (k, r) => match decode f vt r with
+      | .ok (v, r) => match decodePairs f kt vt n r with
+        | .ok (rest, r) => .ok (.cons k v rest, r) | .err k => .err k | .panic m => .panic m | .fuel => .fuel
+      | .err k => .err k | .panic m => .panic m | .fuel => .fuel
     | .err k => .err k | .panic m => .panic m | .fuel => .fuel
 end
 
@@ -471,12 +496,59 @@ def size (bs : Bytes) : Out (Nat × Bytes) :=
   | .ok (n, r) => if n < 2 ^ 31 then .ok (n, r) else .err .invalid
   | .err e => .err e | .panic m => .panic m | .fuel => .fuel
 
+/-- a bool outside a field header: one byte, 1 or 2. -/
+def boolVal (bs : Bytes) : Out (Bool × Bytes) :=
+  match bs with
+  | [] => .err .eof
+  | x :: r => if x = 1 then .ok (true, r) else if x = 2 then .ok (false, r) else .err .invalid
+
+def payload (bs : Bytes) : Out (Bytes × Bytes) :=
+  match size bs with
+  | .ok (n, r) => SpecBin.take n r
+  | .err k => .err k | .panic m => .panic m | .fuel => .fuel
+
+/-- list / set header. -/
+def listHdr (bs : Bytes) : Out ((TType × Nat) × Bytes) :=
+  match bs with
+  | [] => .err .eof
+  | h :: r => match cmpTypeOfNibble (h.toNat % 16) with
+    | none => .err .invalid
+    | some et => match (if h.toNat / 16 = 15 then size r else .ok (h.toNat / 16, r)) with
+      | .ok (n, r) => .ok ((et, n), r)
+      | .err k => .err k | .panic m => .panic m | .fuel => .fuel
+
+/-- map header: `none` for the one-byte empty map (its types are not on the wire). -/
+def mapHdr (bs : Bytes) : Out (Option (TType × TType × Nat) × Bytes) :=
+  match size bs with
+  | .ok (n, r) =>
+    if n = 0 then .ok (none, r)
+    else (match r with
+      | [] => .err .eof
+      | h :: r => match cmpTypeOfNibble (h.toNat / 16), cmpTypeOfNibble (h.toNat % 16) with
+        | some kt, some vt => .ok (some (kt, vt, n), r)
+        | _, _ => .err .invalid)
+  | .err k => .err k | .panic m => .panic m | .fuel => .fuel
+
+/-- field header after a field with id `last`: `none` for STOP; else the type, the id, and — for a
+bool field — the value carried by the type nibble. -/
+def fieldHdr (last : Int) (bs : Bytes) : Out (Option (TType × Int × Option Bool) × Bytes) :=
+  match bs with
+  | [] => .err .eof
+  | b :: r =>
+    if b = 0 then .ok (none, r)
+    else match cmpTypeOfNibble (b.toNat % 16) with
+      | none => .err .invalid
+      | some t =>
+        match (if b.toNat / 16 = 0 then zint 2 r else .ok (last + ((b.toNat / 16 : Nat) : Int), r)) with
+        | .ok (id, r) =>
+          .ok (some (t, id, if b.toNat % 16 = 1 then some true else if b.toNat % 16 = 2 then some false else none), r)
+        | .err k => .err k | .panic m => .panic m | .fuel => .fuel
+
 mutual
 def decode : Nat → TType → Bytes → Out (TVal × Bytes)
   | 0, _, _ => .fuel
-  | _+1, .bool, bs => match bs with
-    | [] => .err .eof
-    | x :: r => if x = 1 then .ok (.bool true, r) else if x = 2 then .ok (.bool false, r) else .err .invalid
+  | _+1, .bool, bs => match boolVal bs with
+    | .ok (b, r) => .ok (.bool b, r) | .err k => .err k | .panic m => .panic m | .fuel => .fuel
   | _+1, .i8, bs => match SpecBin.int 1 bs with
     | .ok (n, r) => .ok (.i8 n, r) | .err k => .err k | .panic m => .panic m | .fuel => .fuel
   | _+1, .i16, bs => match zint 2 bs with
@@ -487,76 +559,53 @@ def decode : Nat → TType → Bytes → Out (TVal × Bytes)
     | .ok (n, r) => .ok (.i64 n, r) | .err k => .err k | .panic m => .panic m | .fuel => .fuel
   | _+1, .double, bs => match SpecBin.take 8 bs with
     | .ok (a, r) => .ok (.dbl (ofLe a), r) | .err k => .err k | .panic m => .panic m | .fuel => .fuel
-  | _+1, .binary, bs => match size bs with
-    | .ok (n, r) => (match SpecBin.take n r with
-      | .ok (a, r) => .ok (.bin a, r) | .err k => .err k | .panic m => .panic m | .fuel => .fuel)
-    | .err k => .err k | .panic m => .panic m | .fuel => .fuel
+  | _+1, .binary, bs => match payload bs with
+    | .ok (a, r) => .ok (.bin a, r) | .err k => .err k | .panic m => .panic m | .fuel => .fuel
   | _+1, .uuid, bs => match SpecBin.take 16 bs with
     | .ok (a, r) => .ok (.uuid a, r) | .err k => .err k | .panic m => .panic m | .fuel => .fuel
   | f+1, .struct, bs => match decodeFields f 0 bs with
     | .ok (fs, r) => .ok (.struct fs, r) | .err k => .err k | .panic m => .panic m | .fuel => .fuel
-  | f+1, .list, bs => match bs with
-    | [] => .err .eof
-    | h :: r => match cmpTypeOfNibble (h.toNat % 16) with
-      | none => .err .invalid
-      | some et => match (if h.toNat / 16 = 15 then size r else .ok (h.toNat / 16, r)) with
-        | .ok (n, r) => (match decodeVals f et n r with
-          | .ok (xs, r) => .ok (.list et xs, r) | .err k => .err k | .panic m => .panic m | .fuel => .fuel)
-        | .err k => .err k | .panic m => .panic m | .fuel => .fuel
-  | f+1, .set, bs => match bs with
-    | [] => .err .eof
-    | h :: r => match cmpTypeOfNibble (h.toNat % 16) with
-      | none => .err .invalid
-      | some et => match (if h.toNat / 16 = 15 then size r else .ok (h.toNat / 16, r)) with
-        | .ok (n, r) => (match decodeVals f et n r with
-          | .ok (xs, r) => .ok (.set et xs, r) | .err k => .err k | .panic m => .panic m | .fuel => .fuel)
-        | .err k => .err k | .panic m => .panic m | .fuel => .fuel
-  | f+1, .map, bs => match size bs with
-    | .ok (n, r) =>
-      if n = 0 then .ok (.map .stop .stop .nil, r)        -- the types of an empty map are not on the wire
-      else (match r with
-        | [] => .err .eof
-        | h :: r => match cmpTypeOfNibble (h.toNat / 16), cmpTypeOfNibble (h.toNat % 16) with
-          | some kt, some vt => (match decodePairs f kt vt n r with
-            | .ok (kvs, r) => .ok (.map kt vt kvs, r) | .err k => .err k | .panic m => .panic m | .fuel => .fuel)
-          | _, _ => .err .invalid)
+  | f+1, .list, bs => match listHdr bs with
+    | .ok ((et, n), r) => match decodeVals f et n r with
+      | .ok (xs, r) => .ok (.list et xs, r) | .err k => .err k | .panic m => .panic m | .fuel => .fuel
+    | .err k => .err k | .panic m => .panic m | .fuel => .fuel
+  | f+1, .set, bs => match listHdr bs with
+    | .ok ((et, n), r) => match decodeVals f et n r with
+      | .ok (xs, r) => .ok (.set et xs, r) | .err k => .err k | .panic m => .panic m | .fuel => .fuel
+    | .err k => .err k | .panic m => .panic m | .fuel => .fuel
+  | f+1, .map, bs => match mapHdr bs with
+    | .ok (none, r) => .ok (.map .stop .stop .nil, r)
+    | .ok (some (kt, vt, n), r) => match decodePairs f kt vt n r with
+      | .ok (kvs, r) => .ok (.map kt vt kvs, r) | .err k => .err k | .panic m => .panic m | .fuel => .fuel
     | .err k => .err k | .panic m => .panic m | .fuel => .fuel
   | _+1, .stop, _ => .err .invalid
   | _+1, .void, _ => .err .invalid
 def decodeFields : Nat → Int → Bytes → Out (TFields × Bytes)
   | 0, _, _ => .fuel
-  | _+1, _, [] => .err .eof
-  | f+1, last, b :: r =>
-    if b = 0 then .ok (.nil, r)
-    else match cmpTypeOfNibble (b.toNat % 16) with
-      | none => .err .invalid
-      | some t =>
-        match (if b.toNat / 16 = 0 then zint 2 r else .ok (last + ((b.toNat / 16 : Nat) : Int), r)) with
-        | .ok (id, r) =>
-          if b.toNat % 16 = 1 ∨ b.toNat % 16 = 2 then
-            (match decodeFields f id r with
-            | .ok (rest, r) => .ok (.cons id (.bool (b.toNat % 16 == 1)) rest, r)
-            | .err k => .err k | .panic m => .panic m | .fuel => .fuel)
-          else (match decode f t r with
-            | .ok (v, r) => (match decodeFields f id r with
-              | .ok (rest, r) => .ok (.cons id v rest, r) | .err k => .err k | .panic m => .panic m | .fuel => .fuel)
-            | .err k => .err k | .panic m => .panic m | .fuel => .fuel)
-        | .err k => .err k | .panic m => .panic m | .fuel => .fuel
+  | f+1, last, bs => match fieldHdr last bs with
+    | .ok (none, r) => .ok (.nil, r)
+    | .ok (some (_, id, some b), r) => match decodeFields f id r with
+      | .ok (rest, r) => .ok (.cons id (.bool b) rest, r) | .err k => .err k | .panic m => .panic m | .fuel => .fuel
+    | .ok (some (t, id, none), r) => match decode f t r with
+      | .ok (v, r) => match decodeFields f id r with
+        | .ok (rest, r) => .ok (.cons id v rest, r) | .err k => .err k | .panic m => .panic m | .fuel => .fuel
+      | .err k => .err k | .panic m => .panic m | .fuel => .fuel
+    | .err k => .err k | .panic m => .panic m | .fuel => .fuel
 def decodeVals : Nat → TType → Nat → Bytes → Out (TVals × Bytes)
   | 0, _, _, _ => .fuel
   | _+1, _, 0, bs => .ok (.nil, bs)
   | f+1, et, n+1, bs => match decode f et bs with
-    | .ok (v, r) => (match decodeVals f et n r with
-      | .ok (vs, r) => .ok (.cons v vs, r) | .err k => .err k | .panic m => .panic m | .fuel => .fuel)
+    | .ok (v, r) => match decodeVals f et n r with
+      | .ok (vs, r) => .ok (.cons v vs, r) | .err k => .err k | .panic m => .panic m | .fuel => .fuel
     | .err k => .err k | .panic m => .panic m | .fuel => .fuel
 def decodePairs : Nat → TType → TType → Nat → Bytes → Out (TPairs × Bytes)
   | 0, _, _, _, _ => .fuel
   | _+1, _, _, 0, bs => .ok (.nil, bs)
   | f+1, kt, vt, n+1, bs => match decode f kt bs with
-    | .ok (k, r) => (match decode f vt r with
-      | .ok (v, r) => (match decodePairs f kt vt n r with
-        | .ok (rest, r) => .ok (.cons k v rest, r) | .err k => .err k | .panic m => .panic m | .fuel => .fuel)
-      | .err k => .err k | .panic m => .panic m | .fuel => .fuel)
+    | .ok (k, r) => match decode f vt r with
+      | .ok (v, r) => match decodePairs f kt vt n r with
+        | .ok (rest, r) => .ok (.cons k v rest, r) | .err k => .err k | .panic m => .panic m | .fuel => .fuel
+      | .err k => .err k | .panic m => .panic m | .fuel => .fuel
     | .err k => .err k | .panic m => .panic m | .fuel => .fuel
 end
 
